@@ -279,3 +279,30 @@ def record_offsets(path):
         lines.append(l.decode())
     h.close()
     return offs, lines
+
+
+def bgzf_layout(path):
+    """[(compressed address, uncompressed payload)] of a BGZF file, parsed from the gzip member headers (BSIZE in the 'BC' extra
+    subfield) and inflated with zlib - independent of pysam / htslib"""
+    import struct
+    import zlib
+    data = open(path, "rb").read()
+    out, pos = [], 0
+    while pos < len(data):
+        if data[pos:pos + 4] != b"\x1f\x8b\x08\x04":
+            raise ValueError("not a BGZF block at %d" % pos)
+        xlen = struct.unpack("<H", data[pos + 10:pos + 12])[0]
+        extra = data[pos + 12:pos + 12 + xlen]
+        bsize, k = None, 0
+        while k < len(extra):
+            si1, si2, slen = extra[k], extra[k + 1], struct.unpack("<H", extra[k + 2:k + 4])[0]
+            if si1 == 66 and si2 == 67:
+                bsize = struct.unpack("<H", extra[k + 4:k + 6])[0] + 1
+            k += 4 + slen
+        if bsize is None:
+            raise ValueError("no BC subfield at %d" % pos)
+        cdata = data[pos + 12 + xlen:pos + bsize - 8]
+        payload = zlib.decompress(cdata, -15)
+        out.append((pos, payload))
+        pos += bsize
+    return out
